@@ -971,4 +971,8 @@ def run(ctx):
     # what the printers emit for a collection with absent items ({1,,3}) is read back only if the collection recognisers start every element afresh (C16.R12)
     from rules import C16 as _C16
     ctx.borrow(_C16, {"C16.R12": ("C09.R10", "printed collections are read back: the collection recognisers reset the element recogniser after every element (C16.R12)")})
+    # the length-delimited and incremental decoders of encoding.rs / async_parser are this property's "however it is chunked" clause
+    from rules import C10 as _C10
+    ctx.borrow(_C10, {"C10.R17": ("C09.R12", "WithLenRecognizerDecoder books what the inner decoder took on every way out (C10.R17)"),
+                      "C10.R18": ("C09.R13", "RecognizerDecoder starts afresh after every finished result, value or error (C10.R18)")})
 
